@@ -775,6 +775,18 @@ Section Build.
     unfold body_of; cbn [b_fee]. rewrite HF. reflexivity.
   Qed.
 
+  (* the repaired build_tx: additionally the fee request is honoured by the built body *)
+  Theorem build_tx6_validates body s s' (o o' : O) :
+    build_tx6 orc s o = mkOut (Ok body) s' o' ->
+    exists F, get_fee_if_set s = Some F /\ b_fee body = F /\ need e s F <= F /\ policy_ok (s_fee_request s) F.
+  Proof.
+    unfold build_tx6. intros H. minv H as sg s1 o1 H1 H2. apply get_inv in H1 as (-> & -> & ->).
+    destruct (fee_request_honoured s) eqn:Eh; [|apply lift_inv in H2 as (? & _); discriminate].
+    apply build_tx_validates in H2 as (F & HF & Hb & Hn). exists F. repeat split; auto.
+    unfold fee_request_honoured in Eh. rewrite HF in Eh. unfold policy_ok.
+    destruct (s_fee_request s); auto; [apply N.leb_le in Eh | apply N.eqb_eq in Eh]; auto.
+  Qed.
+
   Lemma catch_some {A} (m : @M O A) v s s' (o o' : O) :
     catch m s o = mkOut (Ok (Some v)) s' o' -> m s o = mkOut (Ok v) s' o'.
   Proof.
@@ -985,3 +997,18 @@ Example policy_premises :
   let orc := size_oracle e_nl 4310 5000 in
   out_res (add_change orc 10 1 0 s_nl tt) = Ok true.
 Proof. vm_compute. reflexivity. Qed.
+
+(* before /repo 0fc161c: set_fee AFTER add_change was ignored by build_tx (the old code = Change.build_tx):
+   the body carries the computed fee 165897, not the fixed 1000000 *)
+Theorem late_fee_request_legacy_refuted :
+  let orc := size_oracle e_main 4310 5000 in
+  let s1 := set_s_fee_request (FeeExactly 1000000) (out_st (add_change orc 10 1 0 s_tok tt)) in
+  (exists body, out_res (build_tx orc s1 tt) = Ok body /\ b_fee body = 165897) /\
+  out_res (build_tx6 orc s1 tt) = Err.
+Proof. vm_compute. split; [eexists; split; reflexivity | reflexivity]. Qed.
+
+Example build6_premises :
+  let orc := size_oracle e_main 4310 5000 in
+  let r := add_change orc 10 1 0 s_tok tt in
+  exists body, out_res (build_tx6 orc (out_st r) tt) = Ok body /\ b_fee body = 165897.
+Proof. vm_compute. eexists. split; reflexivity. Qed.
